@@ -86,6 +86,17 @@ Print Assumptions nwchem_whole_file_write_total.
 Example some_writer_recontracts : exists w, assoc "nwchem" writer_map = Some w /\ forallb recontracting (w_pipeline w) = true /\ w_pipeline w <> [].
 Proof. eexists; split; [vm_compute; reflexivity|]. split; [vm_compute; reflexivity | discriminate]. Qed.
 
+From BSE Require Import Model.TurbomoleEcp Proofs.TurbomoleEcpDefs Model.GamessUs Proofs.GamessUsDefs.
+From BSE Require Proofs.TurbomoleEcpSpec Proofs.GamessUsSpec.
+(* the whole Turbomole file and the GAMESS-US electron part *)
+Theorem turbomole_whole_file_no_number_lost : tmecp_no_number_lost_stmt.
+Proof. exact TurbomoleEcpSpec.tmecp_no_number_lost. Qed.
+Print Assumptions turbomole_whole_file_no_number_lost.
+
+Theorem gamess_us_no_number_lost : gus_no_number_lost_stmt.
+Proof. exact GamessUsSpec.gus_no_number_lost. Qed.
+Print Assumptions gamess_us_no_number_lost.
+
 (* the Gaussian94 ECP blocks: every gaussian exponent / coefficient (with the D marker the writer prints), every r exponent
    and the electron count is a token of the text *)
 From BSE Require Import Model.G94Ecp Proofs.G94EcpDefs.
